@@ -62,7 +62,9 @@ impl Prop for C13 {
         let vc = consts_of(variant);
         let mut c = vc.model_consts();
         let big = vc.chunk > 1000;
-        if big {
+        // production constants: seven runs in eight stay around chunk edges (a few hundred KiB), the eighth has pieces of
+        // up to several MiB (single appends larger than any copy buffer, under splitting sources)
+        if big && rng.chance(7, 8) {
             c.block = 2 * c.chunk;
             c.repair_cache = 4 * c.chunk;
         }
